@@ -17,6 +17,22 @@ ConvOK(e) ==
        e.res[idx + 1] = (IF e.offset + idx < e.size
                          THEN CyclicCoef(e.a, e.b, e.size, e.offset + idx, e.n) ELSE Zero)
 
+\* large transforms: sampled coefficients ks / cs of the full cyclic product (offset 0) of operands given by a
+\* description: period-2 values (pv, qv) or sparse (position, value) pairs (ap, bp)
+ConvBigOK(e) ==
+  /\ Len(e.cs) = Len(e.ks) /\ Residues(e.cs, e.n)
+  /\ \A t \in 1..Len(e.ks) :
+       e.cs[t] = (IF e.pat = "sparse" THEN SparseCyclicCoef(e.ap, e.bp, e.size, e.ks[t], e.n)
+                  ELSE Periodic2Coef(e.pv, e.qv, e.size, e.ks[t], e.n))
+ConvBigInputs(e) ==
+  /\ e.size % 2 = 0 /\ \A t \in 1..Len(e.ks) : e.ks[t] \in 0..(e.size - 1)
+  /\ IF e.pat = "sparse"
+     THEN /\ \A i \in 1..Len(e.ap) : e.ap[i][1] \in 0..(e.size - 1) /\ Lt(e.ap[i][2], e.n)
+          /\ \A i \in 1..Len(e.bp) : e.bp[i][1] \in 0..(e.size - 1) /\ Lt(e.bp[i][2], e.n)
+          /\ \A i, j \in 1..Len(e.ap) : i # j => e.ap[i][1] # e.ap[j][1]
+          /\ \A i, j \in 1..Len(e.bp) : i # j => e.bp[i][1] # e.bp[j][1]
+     ELSE Len(e.pv) = 2 /\ Len(e.qv) = 2 /\ Residues(e.pv, e.n) /\ Residues(e.qv, e.n)
+
 \* full product; the routines may return a longer array whose tail is zero
 MulOK(e) ==
   /\ Len(e.res) >= Len(e.a) + Len(e.b) - 1
@@ -59,6 +75,7 @@ RootOK(e) == LET m == 64 * e.N IN ModF(Sqr(Sqrt2(m)), m) = FromInt(2)
 
 Ok(e) ==
   CASE e.op = "conv"        -> ConvOK(e)
+    [] e.op = "conv_big"    -> ConvBigOK(e)
     [] e.op = "mul"         -> MulOK(e)
     [] e.op = "middle"      -> MiddleOK(e)
     [] e.op = "inv"         -> InvOK(e)
@@ -74,6 +91,7 @@ Ok(e) ==
 WitnessOK(e) ==
   CASE e.op \in {"conv", "mul", "middle", "quot", "roots_eval", "multi_eval"} -> Residues(e.a, e.n) /\ Residues(e.b, e.n)
     [] e.op \in {"inv", "from_roots"} -> Residues(e.a, e.n)
+    [] e.op = "conv_big" -> ConvBigInputs(e)
     [] e.op = "fint" -> RootOK(e) /\ (e.fop = "reduce" \/ (Lt(e.a, Fermat(64 * e.N)) /\ Lt(e.b, Fermat(64 * e.N))))
     [] OTHER -> TRUE
 
